@@ -44,7 +44,7 @@ MUTATORS = [
 
 @st.composite
 def cases(draw):
-    avoid = set(c01.AVOID_BY_KEY.values())
+    avoid = c01.current_avoid()
     p = draw(gen.programs({"features": set(gen.FEATURES) - {"faults"}, "avoid": avoid, "max_fns": 3, "max_types": 3, "max_stmts": 6}))
     mut = draw(st.integers(-1, len(MUTATORS) - 1))
     return {"src": program_src(p), "mutator": mut}
